@@ -532,7 +532,9 @@ fn main() {
     }
     let mut run = Run::new(&args, "sieve", "exploration");
     let max_small: usize = args.tier.pick(1500, 4096);
-    let big: usize = args.tier.pick(1_000_000, 10_000_000);
+    // (limit, known number of primes <= limit); ascending
+    let bigs: Vec<(usize, usize)> = args.tier.pick(vec![(1_000_000, 78_498), (10_000_000, 664_579)], vec![(1_000_000, 78_498), (10_000_000, 664_579), (1 << 25, 2_063_689)]);
+    let big: usize = bigs.last().unwrap().0;
 
     // references and their self-checks (independent of the code under test)
     let sref = small_reference(max_small);
@@ -542,10 +544,13 @@ fn main() {
             run.machinery_failure(&format!("the two references disagree on the least prime factor of {n}"));
         }
     }
-    let pi_big = (2..=big).filter(|&n| spf[n] as usize == n).count();
-    let pi_known = args.tier.pick(78_498, 664_579);
-    if pi_big != pi_known {
-        run.machinery_failure(&format!("reference Eratosthenes sieve counts {pi_big} primes <= {big}, the known value is {pi_known}"));
+    let mut pi_bigs = 0u64;
+    for &(b, pi_known) in &bigs {
+        let pi_b = (2..=b).filter(|&n| spf[n] as usize == n).count();
+        if pi_b != pi_known {
+            run.machinery_failure(&format!("reference Eratosthenes sieve counts {pi_b} primes <= {b}, the known value is {pi_known}"));
+        }
+        pi_bigs += pi_b as u64;
     }
     {
         // strided cross-check of the Eratosthenes table against trial division over the whole big range
@@ -590,32 +595,42 @@ fn main() {
     }
     let small_counters = total.clone();
 
-    // the big limit
-    let ob = check_big_limit(big, &spf);
-    total.merge(&ob.c);
-    for f in &ob.fails {
-        if !first.iter().any(|g| g.family == f.family) {
-            first.push(f.clone());
+    // the big limits (one table of the reference serves all: the least prime factor does not depend on N)
+    let mut big_limits_with_failure = 0u64;
+    let mut big_counters = Counters::default();
+    for &(b, _) in &bigs {
+        let ob = check_big_limit(b, &spf);
+        big_counters.merge(&ob.c);
+        for f in &ob.fails {
+            if !first.iter().any(|g| g.family == f.family) {
+                first.push(f.clone());
+            }
         }
+        big_limits_with_failure += (!ob.fails.is_empty()) as u64;
     }
+    total.merge(&big_counters);
 
     first.sort_by_key(|f| FAMILIES.iter().position(|x| *x == f.family));
     for f in &first {
         run.violation(Violation::new(f.signature.clone(), f.summary.clone(), f.replay.clone()));
     }
-    let limits_with_failure = outcomes.iter().filter(|o| !o.fails.is_empty()).count() as u64 + (!ob.fails.is_empty()) as u64;
+    let limits_with_failure = outcomes.iter().filter(|o| !o.fails.is_empty()).count() as u64 + big_limits_with_failure;
+    let big_list: Vec<usize> = bigs.iter().map(|b| b.0).collect();
 
     run.cov("evaluations", total.evaluations());
     run.cov("distinct_nontrivial", lim_prime + lim_sq + lim_pq);
     run.cov(
         "rule",
         format!(
-            "every limit N in 0..={max_small} (each a fresh Sieve::new(N)) x every n in 0..=N: is_prime(n); min_prime(n) for n>=2; factorize(n) for n>=1; primes() whole list — against trial division; plus N={big} element by element (is_prime, min_prime, factorize for every n<=N, primes()) against a plain Eratosthenes sieve. evaluations = calls of the real code compared with the reference (constructor + is_prime + min_prime + primes() + factorize calls). distinct_nontrivial = number of distinct small limits N, built and compared, whose last table entry N is a prime, a prime square p^2 or a product p*q of two distinct primes (classified by the trial-division reference): the limits where the last outer iteration appends a prime, or where the last composite is written at the very edge of the table by the cut-off `prime*i >= len`"
+            "every limit N in 0..={max_small} (each a fresh Sieve::new(N)) x every n in 0..=N: is_prime(n); min_prime(n) for n>=2; factorize(n) for n>=1; primes() whole list — against trial division; plus every N in {big_list:?} element by element (is_prime, min_prime, factorize for every n<=N, primes()) against a plain Eratosthenes sieve; the whole enumeration is run a second time in a build with debug assertions and integer overflow checks (an overflow panic on an in-domain n is a violation there). evaluations = calls of the real code compared with the reference (constructor + is_prime + min_prime + primes() + factorize calls). distinct_nontrivial = number of distinct small limits N, built and compared, whose last table entry N is a prime, a prime square p^2 or a product p*q of two distinct primes (classified by the trial-division reference): the limits where the last outer iteration appends a prime, or where the last composite is written at the very edge of the table by the cut-off `prime*i >= len`"
         ),
     );
     run.cov("exhaustive", true);
     run.cov("small_limit_max", max_small as u64);
     run.cov("big_limit", big as u64);
+    run.cov("big_limits", json!(big_list));
+    run.cov("big_limits_factorize_max_distinct_primes", big_counters.max_distinct_primes);
+    run.cov("big_limits_factorize_max_exponent", big_counters.max_exponent);
     run.cov("limits_built", total.news);
     run.cov("limits_compared_small", limits_compared);
     run.cov("limits_with_a_failure", limits_with_failure);
@@ -639,14 +654,14 @@ fn main() {
     run.cov("small_limits_N_semiprime_pq", lim_pq);
     run.cov("small_limits_table_len_N_plus_1_composite", lim_next_composite);
     run.cov("small_limits_table_len_N_plus_1_prime", lim_next_prime);
-    run.cov("reference_prime_count_big", pi_big as u64);
+    run.cov("reference_prime_count_big_limits_total", pi_bigs);
 
     // samples (VERIF_SEED only rotates which ones are printed)
     let rot = (args.seed % 64) as usize;
     for &limit in &[1usize, 4, 9 + rot, 120 + rot, max_small - rot] {
         run.sample(observed_sample(limit, &[0, 1, 2, limit.saturating_sub(1), limit]));
     }
-    run.sample(observed_sample(big, &[1, 2, 720_720 + rot, 999_983, 1 << 19, big - 1, big]));
+    run.sample(observed_sample(big, &[1, 2, 720_720 + rot, 999_983, 1 << 19, 9_699_690, 1 << 23, big - 1, big]));
 
     // a table that could make factorize spin was never exercised: no verdict possible on that clause
     if !run.has_violations() {
@@ -654,14 +669,14 @@ fn main() {
             run.machinery_failure("min_prime(0) = min_prime(1) >= 2 for some limit: factorize could not be executed safely, no verdict");
         }
         // non-vacuity
-        let want_pairs: u64 = (0..=max_small as u64).map(|n| n + 1).sum::<u64>() + big as u64 + 1;
+        let want_pairs: u64 = (0..=max_small as u64).map(|n| n + 1).sum::<u64>() + big_list.iter().map(|&b| b as u64 + 1).sum::<u64>();
         if total.pairs != want_pairs {
             run.machinery_failure(&format!("compared {} (N,n) pairs, expected {want_pairs}", total.pairs));
         }
-        if total.news != max_small as u64 + 2 || limits_compared != max_small as u64 + 1 {
+        if total.news != (max_small + 1 + bigs.len()) as u64 || limits_compared != max_small as u64 + 1 {
             run.machinery_failure("not every limit was built and compared");
         }
-        if total.factorize != total.pairs - (max_small as u64 + 2) {
+        if total.factorize != total.pairs - total.news {
             run.machinery_failure("factorize was not compared for every n >= 1 of every limit");
         }
         if lim_prime < 100 || lim_sq < 10 || lim_pq < 100 || lim_next_composite < 100 || lim_next_prime < 100 {
@@ -670,9 +685,17 @@ fn main() {
         if small_counters.max_exponent < 10 || small_counters.max_distinct_primes < 4 || total.shapes.len() < 50 {
             run.machinery_failure("factorisations with high exponents / several distinct primes were not seen");
         }
-        if total.primes_list_elements < pi_big as u64 {
+        // the factorisation shapes that only exist near 10^7: 2*3*5*7*11*13*17*19 and 2^23
+        if big_counters.max_distinct_primes < 8 || big_counters.max_exponent < 23 {
+            run.machinery_failure("the big limits did not reach a factorisation with 8 distinct primes / exponent 23");
+        }
+        if total.primes_list_elements < pi_bigs {
             run.machinery_failure("prime lists were not compared");
         }
+    }
+    if std::env::var("VCORE_CHILD").is_err() {
+        // the same enumeration in a build with debug assertions and overflow checks
+        run.run_dbg_child();
     }
     run.finish(&confirm)
 }
